@@ -57,7 +57,7 @@ REQUIRED = (
     + ["line:comment///", "line:label/symbol", "line:directive", "line:label+trailing-comment", "line:directive+trailing-comment",
        "line:directive+trailing-comment-with-comma"]
     + ["file/line:blank-empty", "file/line:blank-whitespace", "file/line:comment///", "file/line:label/symbol", "file/line:directive",
-       "file/final-newline", "file/starts-with-blank", "file/mem:idx-ext", "file/tail:cmt//", "file/cc", "file/list:range"]
+       "file/final-newline", "file/starts-with-blank", "file/line:blank-other-whitespace", "file/mem:idx-ext", "file/tail:cmt//", "file/cc", "file/list:range"]
 )
 
 
